@@ -164,7 +164,7 @@ Proof.
   - cbn [p_quoted_loop]. rewrite (quoted_raw_ok b Hb), IH. reflexivity.
   - cbn [p_quoted_loop]. change (is_quoted_char (tok_of_byte 92)) with false.
     change (tok_of_byte 92 =? TT_Backslash) with true. cbn match.
-    rewrite (quoted_special_byte b Hb), IH. reflexivity.
+    rewrite quoted_escape_is_special, (quoted_special_byte b Hb), IH. reflexivity.
 Qed.
 
 Lemma quoted_rt : forall s bs rest, EncQuoted s bs -> p_quoted (bs ++ rest) = ROk s rest.
